@@ -36,6 +36,9 @@ pub struct OverLong {
     pub prefix: u8,
     pub suffix: bool,
     pub max_ml: u32,
+    /// literals of the block that no sequence consumes (appended after the last match)
+    #[serde(default)]
+    pub trailing: u32,
 }
 
 #[derive(Clone, Debug, Serialize, Deserialize)]
@@ -72,7 +75,9 @@ fn overlong_spec(o: &OverLong) -> FrameSpec {
         }
     } else {
         let lit_len = (o.lit_len as usize).clamp(1, target.saturating_sub(3).max(1));
-        let mut left = target.saturating_sub(lit_len);
+        // literals nobody references: they count towards the regenerated size like everything else
+        let trailing = (o.trailing as usize).min(128 * 1024 - lit_len.min(128 * 1024)).min(target.saturating_sub(lit_len + 3));
+        let mut left = target.saturating_sub(lit_len + trailing);
         let max_ml = (o.max_ml as usize).clamp(3, 131_074);
         let mut seqs = vec![];
         let mut first = true;
@@ -90,8 +95,8 @@ fn overlong_spec(o: &OverLong) -> FrameSpec {
             left -= ml;
         }
         CompSpec {
-            literals: (0..lit_len).map(|i| (i * 7) as u8).collect(),
-            lit_mode: 0,
+            literals: if trailing > 0 { vec![0x62; lit_len + trailing] } else { (0..lit_len).map(|i| (i * 7) as u8).collect() },
+            lit_mode: if trailing > 0 { 1 } else { 0 },
             lit_fmt: 0,
             huf_shape: 0,
             huf_fse: false,
@@ -126,9 +131,10 @@ fn overlong_strategy() -> impl Strategy<Value = OverLong> {
     ];
     (
         (target, 1u16..=40, prop::bool::weighted(0.2), any::<u8>(), 1u8..=8),
-        ([0u8..=2, 0u8..=2, 0u8..=2], (0u8..=13, 0u8..=7), 0u8..=2, any::<bool>(), prop_oneof![Just(131_074u32), Just(65_539u32), 3u32..=131_074]),
+        ([0u8..=2, 0u8..=2, 0u8..=2], (0u8..=13, 0u8..=7), 0u8..=2, any::<bool>(), prop_oneof![Just(131_074u32), Just(65_539u32), 3u32..=131_074],
+            prop_oneof![3 => Just(0u32), 2 => 1u32..=131_072, 1 => Just(131_072u32), 1 => 60_000u32..=131_072]),
     )
-        .prop_map(|((target, lit_len, via_literals, lit_mode, offset), (modes, (e, m), prefix, suffix, max_ml))| OverLong {
+        .prop_map(|((target, lit_len, via_literals, lit_mode, offset), (modes, (e, m), prefix, suffix, max_ml, trailing))| OverLong {
             target,
             lit_len,
             via_literals,
@@ -139,6 +145,7 @@ fn overlong_strategy() -> impl Strategy<Value = OverLong> {
             prefix,
             suffix,
             max_ml,
+            trailing,
         })
 }
 
@@ -278,6 +285,7 @@ fn drive(frame: &[u8], expect: &[u8], window: u64, nblocks: usize, d: &Drive) ->
                     // the call may decode every complete block contained in the offered slice
                     let offered_blocks = (avail - pos) / 3 + 1;
                     let requested = (offered_blocks.min(nblocks.max(1))) * BLOCK;
+                    obs.max_requested = obs.max_requested.max(requested.min(expect.len() + BLOCK));
                     obs.max_excess = obs.max_excess.max((after + w) as i64 - before as i64 - requested as i64);
                     if r > avail - pos {
                         return Err(format!("decode_from_to reports {r} bytes consumed of {} offered", avail - pos));
@@ -371,7 +379,7 @@ pub fn check(case: &Case, ctx: &mut CaseCtx) -> CaseResult {
             "streaming decoder holds {} bytes after a read of {read} with window {window}", obs.max_held_streaming);
     }
     // (3) peak heap: catches amplification by orders of magnitude
-    let budget = 4 * (window as usize + obs.max_requested + BLOCK) + (4 << 20)
+    let budget = 4 * (window as usize + obs.max_requested + BLOCK) + (8 << 20)
         + match &case.drive { Drive::DecodeAll { spare } => content.len().min(8 << 20) + *spare as usize, Drive::FromTo { target, .. } => *target as usize, Drive::Streaming { read } => *read as usize, _ => 0 }
         + if matches!(case.drive, Drive::Blocks { drain: false, .. }) || matches!(case.drive, Drive::Blocks { strat: 0, .. }) { 3 * content.len().min(nblocks * BLOCK) } else { 0 };
     ensure!(peak <= budget, "peak_heap_exceeds_budget", "peak live heap {peak} > budget {budget} (window {window}, requested {}, frame {} bytes); drive {:?}", obs.max_requested, frame.len(), case.drive);
